@@ -185,6 +185,12 @@ func init() {
 
 	// ---------- time ----------
 	reg("time.Sleep", func(i *interpreter, fr *frame, args []value) value {
+		if i.env.inSpawn {
+			if i.env.sleepBudget <= 0 {
+				panic(stopSpawn{})
+			}
+			i.env.sleepBudget--
+		}
 		i.env.ticks++
 		i.env.slept = append(i.env.slept, args[0])
 		if i.env.sched != nil {
@@ -238,6 +244,48 @@ func init() {
 		return tuple{int64(d), iface{}}
 	})
 
+	// vRunSpawned(ticks): run every captured `go` closure until it
+	// returns or has slept `ticks` times; returns how many returned.
+	reg(hp+"vRunSpawned", func(i *interpreter, fr *frame, args []value) value {
+		ticks := int(asInt64(args[0]))
+		done := 0
+		e := i.env
+		for idx := 0; idx < len(e.spawned); idx++ {
+			sp := e.spawned[idx]
+			if sp.ran {
+				continue
+			}
+			func() {
+				prevT := e.curThread
+				e.curThread = 100 + idx
+				e.inSpawn, e.sleepBudget = true, ticks
+				defer func() {
+					e.curThread = prevT
+					e.inSpawn = false
+					if r := recover(); r != nil {
+						if _, ok := r.(stopSpawn); ok {
+							return
+						}
+						panic(r)
+					}
+				}()
+				call(i, nil, sp.pos, sp.fn, sp.args)
+				sp.ran = true
+				done++
+			}()
+		}
+		return done
+	})
+	reg(hp+"vSpawnedCount", func(i *interpreter, fr *frame, args []value) value {
+		n := 0
+		for _, sp := range i.env.spawned {
+			if !sp.ran {
+				n++
+			}
+		}
+		return n
+	})
+
 	// ---------- path/filepath ----------
 	reg("path/filepath.Join", func(i *interpreter, fr *frame, args []value) value {
 		parts := args[0].([]value)
@@ -277,6 +325,8 @@ func binopEq(a, b value) value {
 	}
 	return a == b
 }
+
+type stopSpawn struct{}
 
 type ctxModel struct{ cancelled bool }
 
